@@ -80,6 +80,8 @@ type FS struct {
 	WriteLat, ReadLat, OpenLat [2]time.Duration
 	// Hooks (world supplied).
 	OnWrite func(ev *WriteEvent) Fault
+	// Quota: the largest file the disk takes (0 = no limit); larger truncates fail with EFBIG.
+	Quota   int64
 	OnRead  func(path string, off int64, n int) error
 	OnOpen  func(path string, flag int) error
 	nWrites int
@@ -329,6 +331,12 @@ func (fl *File) Truncate(size int64) error {
 		return pathErr("truncate", fl.path, fs.ErrClosed)
 	}
 	fl.fs.audit("truncate", fl.path, 0, size, 0, nil)
+	if size < 0 {
+		return pathErr("truncate", fl.path, syscall.EINVAL)
+	}
+	if fl.fs.Quota > 0 && size > fl.fs.Quota {
+		return pathErr("truncate", fl.path, syscall.EFBIG)
+	}
 	fl.ino.cur = resize(fl.ino.cur, size)
 	fl.ino.dur = resize(fl.ino.dur, size) // metadata treated as durable (stated assumption)
 	return nil
